@@ -133,6 +133,10 @@ func (t *BaseTraveler) GetCurrent() *DataElement {
 }
 
 func (t *BaseTraveler) GetCurrentID() string {
+	if t.Current == nil {
+		// rows produced by outNull()/inNull() or a count carry no element
+		return ""
+	}
 	return t.Current.ID
 }
 
